@@ -1,2 +1,10 @@
 import Emitter.Props.C16
-#print axioms Emitter.C16.placeholder
+#print axioms Emitter.C16.fact_type_codes
+#print axioms Emitter.C16.fact_sizes
+#print axioms Emitter.C16.encLen_length
+#print axioms Emitter.C16.len_roundtrip
+#print axioms Emitter.C16.string_roundtrip
+#print axioms Emitter.C16.decode_encode
+#print axioms Emitter.C16.encode_fits
+#print axioms Emitter.C16.encode_publish_total
+#print axioms Emitter.C16.decode_refuses_oversize
